@@ -34,6 +34,19 @@ func readDBs(src influxql.Sources, out *[]string) {
 	}
 }
 
+// intoDBs collects the database of the INTO target of the statement and of
+// every subquery at any depth.
+func intoDBs(sel *influxql.SelectStatement, out *[]string) {
+	if sel.Target != nil && sel.Target.Measurement != nil {
+		*out = append(*out, sel.Target.Measurement.Database)
+	}
+	for _, s := range sel.Sources {
+		if sq, ok := s.(*influxql.SubQuery); ok {
+			intoDBs(sq.Statement, out)
+		}
+	}
+}
+
 func subqDepth(src influxql.Sources) int {
 	d := 0
 	for _, s := range src {
@@ -113,18 +126,54 @@ func c19One(c *Ctx, gc *GCase, sub string, local map[string]int64) {
 				return
 			}
 		}
-		if sel.Target != nil {
+		var wdbs []string
+		intoDBs(sel, &wdbs)
+		for wi, db := range wdbs {
 			ok := false
 			for _, p := range privs {
-				if p.Name == sel.Target.Measurement.Database && (p.Privilege == influxql.WritePrivilege || p.Privilege == influxql.AllPrivileges) {
+				if p.Name == db && (p.Privilege == influxql.WritePrivilege || p.Privilege == influxql.AllPrivileges) {
 					ok = true
 				}
 			}
 			if !ok {
-				r.Violation("missing-write-privilege", det(fmt.Sprintf("no write privilege on INTO database %q; got %+v", sel.Target.Measurement.Database, privs)))
+				r.Violation("missing-write-privilege", det(fmt.Sprintf("no write privilege on INTO database %q (INTO clause %d of %d, outermost first); got %+v", db, wi+1, len(wdbs), privs)))
 				return
 			}
 			local["into-checked"]++
+			if wi > 0 || sel.Target == nil {
+				local["into-checked.in-subquery"]++
+			}
+		}
+		// the answer follows the statement: after the statement is edited in
+		// place (every database renamed, a source and a target added) a second
+		// call answers for the statement as it is now, like a fresh parse of
+		// its printed form does
+		if psel := parsedSelect(st); psel != nil {
+			influxql.WalkFunc(psel, func(n influxql.Node) {
+				if m, ok := n.(*influxql.Measurement); ok && m.Database != "" {
+					m.Database += "_edited"
+				}
+			})
+			psel.Sources = append(psel.Sources, &influxql.Measurement{Database: "added_db", Name: "added_m"})
+			if psel.Target == nil {
+				psel.Target = &influxql.Target{Measurement: &influxql.Measurement{Database: "added_target", Name: "t", IsTarget: true}}
+			}
+			var again influxql.ExecutionPrivileges
+			var aerr error
+			if p, pv, stk := mon.Try(func() { again, aerr = st.RequiredPrivileges() }); p {
+				d := det(fmt.Sprint(pv))
+				d["stack"] = stk
+				r.Violation("panic-in-RequiredPrivileges", d)
+				return
+			}
+			if re, perr := influxql.ParseStatement(st.String()); perr == nil {
+				want, werr := re.RequiredPrivileges()
+				if fmt.Sprint(again, aerr) != fmt.Sprint(want, werr) {
+					r.Violation("privileges-not-a-function-of-the-statement", det(fmt.Sprintf("after editing the statement in place to %q, RequiredPrivileges answers %+v; the same statement parsed afresh answers %+v", trunc(st.String(), 300), again, want)))
+					return
+				}
+				local["second-call-after-edit"]++
+			}
 		}
 		local["select-checked"]++
 		local[fmt.Sprintf("subquery-depth.%d", subqDepth(sel.Sources))]++
@@ -132,12 +181,22 @@ func c19One(c *Ctx, gc *GCase, sub string, local map[string]int64) {
 	local["ok"]++
 }
 
+func parsedSelect(st influxql.Statement) *influxql.SelectStatement {
+	switch w := st.(type) {
+	case *influxql.SelectStatement:
+		return w
+	case *influxql.ExplainStatement:
+		return w.Statement
+	}
+	return nil
+}
+
 // c19Known recognises the cardinality statements without FROM.
 func c19Known(want influxql.Statement) string { return "" }
 
 func checkC19(c *Ctx) (string, bool, []string) {
 	r := c.R
-	rule := "every clause subset of all 44 statement kinds (exhaustive, seed-independent in structure): RequiredPrivileges must return a non-empty list without error, with an admin entry for every administrative kind; SELECT and EXPLAIN [ANALYZE] [VERBOSE] SELECT with 1-3 sources of every form (m, rp.m, db.rp.m, db..m, regex forms, subqueries nested to depth 5) and every INTO form: a read privilege for the database of every measurement at any depth, a write privilege for the INTO database. Non-trivial = statement has at least one database name or optional clause; distinct by text."
+	rule := "every clause subset of all 44 statement kinds (exhaustive, seed-independent in structure): RequiredPrivileges must return a non-empty list without error, with an admin entry for every administrative kind; SELECT and EXPLAIN [ANALYZE] [VERBOSE] SELECT with 1-3 sources of every form (m, rp.m, db.rp.m, db..m, regex forms, subqueries nested to depth 5) and every INTO form: a read privilege for the database of every measurement at any depth, a write privilege for the database of every INTO clause (the statement's and any subquery's); after the parsed statement is edited in place (databases renamed, a source and a target added) a second call must answer like a fresh parse of the printed statement. Non-trivial = statement has at least one database name or optional clause; distinct by text."
 	assume := []string{"in half of the SELECT cases the generator gives every database slot of one statement a different name, so a missing entry cannot be masked by another source; in the other half databases come from a pool of three and subqueries may carry INTO clauses, so the same database is written and read at several depths in either order", "an empty database name stands for the default database and must be listed as such"}
 	if c.Replay != nil {
 		opt := gen.Opts{}
